@@ -1,5 +1,5 @@
 #!/usr/bin/env python3
-"""mkseed.py <tag> <property id> [extra hint]: creates /tmp/seed/<tag> (worktree) and /tmp/seed/<tag>-out/TASK.txt"""
+"""tools/mkseed.py <tag> <property id> [extra hint]: creates /tmp/seed/<tag> (worktree) and /tmp/seed/<tag>-out/TASK.txt"""
 import json, os, subprocess, sys
 tag, pid = sys.argv[1], sys.argv[2]
 avoid = sys.argv[3] if len(sys.argv) > 3 else ""
